@@ -266,7 +266,7 @@ func runC02(c *ShardCtx) {
 	{
 		lit := peg.Lit
 		recs := []func() *peg.Expr{
-			func() *peg.Expr { return peg.Seq(peg.Any(), peg.Opt(lit("b"))) }, func() *peg.Expr { return peg.Seq(lit("a")) },
+			func() *peg.Expr { return peg.Seq(peg.Any(), peg.Opt(lit("b"))) }, func() *peg.Expr { return peg.Seq(lit("a"), lit("")) },
 			func() *peg.Expr { return peg.Any() }, func() *peg.Expr { return lit("") }, func() *peg.Expr { return peg.Seq(peg.Star(lit("a")), lit("b")) },
 		}
 		for _, rec := range recs {
